@@ -16,6 +16,10 @@ from .report import Ledger
 PROPS = [f"C{n:02d}" for n in range(2, 21)]
 
 
+class _Undecided(Exception):
+    """the run ends as exit 2 even though rule violations were recorded (they are withheld, see run_property)"""
+
+
 def run_property(pid: str, repo: str, tier: str, seed: int, quiet: bool = False, write_files: bool = True) -> tuple[int, Ledger | None, str]:
     """Run one property's rules on ``repo``. Returns (exit code, ledger, error text)."""
     ledger = Ledger(pid=pid, tier=tier, seed=seed, repo=repo, quiet=quiet, write_files=write_files)
@@ -27,7 +31,18 @@ def run_property(pid: str, repo: str, tier: str, seed: int, quiet: bool = False,
         m_floor = memo.check(prog, ledger, pid)  # rule M (shared): no history-dependent memo on the property's path
         mod.run(prog, ledger)
         m_floor()  # the size floor of rule M's call-graph slice comes last: it must not pre-empt a verdict of the property's own rules
+        # A correctly keyed memo on the property's path is equivalent to recomputation, but the property's own recognisers
+        # (formula translators, the abstract heap) do not see through it: what they then report is about their model, not
+        # about the code.  With such a site on the path and no verdict of rule M itself, their violations are withheld and
+        # the run ends undecided (exit 2) — never a pass, never an alarm on code where the property holds.
+        transparent = ledger.extra.get("rule_M_transparent_sites") or []
+        own = [o for o in ledger.obligations if o.status == "violation" and o.rule != "M"]
+        if transparent and own and not any(o.status == "violation" and o.rule == "M" for o in ledger.obligations):
+            raise _Undecided(f"{len(own)} finding(s) of rule(s) {sorted({o.rule for o in own})} were reached through code that goes through the correctly keyed memo "
+                             f"{', '.join(transparent[:3])}, which those rules do not see through: undecided (first: {own[0].construct})")
         return ledger.finish(), ledger, ""
+    except _Undecided as exc:
+        return 2, ledger, f"{exc}"
     except AnalysisError as exc:
         if any(o.status == "violation" for o in ledger.obligations):
             # a construct was already shown to violate a rule before the recogniser gave up on a
